@@ -23,7 +23,7 @@ pub struct Region(pub u8);
 pub struct Variant(pub u8);
 /// `icu_locid::subtags::Variants` derefs to a slice; at most one variant here
 #[derive(Clone, Copy, Debug)]
-pub struct Variants { items: [Variant; 1], len: usize }
+pub struct Variants { items: [Variant; 1], len: u8 }
 impl Variants {
     pub fn new(v: Option<Variant>) -> Self {
         match v { Some(v) => Variants { items: [v], len: 1 }, None => Variants { items: [Variant(0)], len: 0 } }
@@ -31,7 +31,7 @@ impl Variants {
 }
 impl Deref for Variants {
     type Target = [Variant];
-    fn deref(&self) -> &[Variant] { &self.items[..self.len] }
+    fn deref(&self) -> &[Variant] { &self.items[..self.len as usize] }
 }
 impl PartialEq for Variants {
     fn eq(&self, o: &Self) -> bool { self.len == o.len && (self.len == 0 || self.items[0] == o.items[0]) }
@@ -50,16 +50,97 @@ impl AsRef<LanguageIdentifier> for LanguageIdentifier {
 /// `trait Locale` reduced to what the negotiation code uses
 pub trait Locale: 'static + AsRef<LanguageIdentifier> + Copy + Default {}
 
-include!("extracted.rs");
+/// the extracted functions, compiled against the shims above and the `Vec` model below (which shadows std's
+/// `Vec` / `vec!` inside this module only)
+pub mod negotiation {
+    use super::*;
+    /// T1: `std::vec::Vec` as the negotiation code uses it, array-backed (capacity 4), with the documented semantics of
+    /// the operations used: `push` appends, `retain` keeps the elements the predicate accepts, in order, calling
+    /// it once per element front to back, `sort_by` is a stable sort (insertion sort here), `first` is element 0, `v[from..]` is the tail of the live
+    /// elements (type `Tail`, same `sort_by`).
+    /// Why: std's `sort_by` on a vector whose length is symbolic does not terminate under CBMC (> 5 min for two `u8`),
+    /// and Kani refuses to stub slice methods.
+    #[derive(Clone, Copy, Debug)]
+    pub struct Vec<T: Copy + Default> { items: [T; VEC_CAP], len: usize, from: usize }
+    pub const VEC_CAP: usize = 4;
+    impl<T: Copy + Default> Vec<T> {
+        pub fn new() -> Self { Vec { items: [T::default(); VEC_CAP], len: 0, from: 0 } }
+        pub fn from_slice(s: &[T]) -> Self {
+            let mut v = Self::new();
+            let mut i = 0;
+            while i < s.len() { v.push(s[i]); i += 1; }
+            v
+        }
+        pub fn len(&self) -> usize { self.len }
+        pub fn get(&self, i: usize) -> T { assert!(i < self.len); self.items[i] }
+        pub fn push(&mut self, x: T) {
+            assert!(self.len < VEC_CAP, "Vec model: capacity");
+            self.items[self.len] = x;
+            self.len += 1;
+        }
+        pub fn retain<F: FnMut(&T) -> bool>(&mut self, mut f: F) {
+            let (mut r, mut w) = (0, 0);
+            while r < self.len {
+                let x = self.items[r];
+                if f(&x) { self.items[w] = x; w += 1; }
+                r += 1;
+            }
+            self.len = w;
+        }
+        pub fn sort_by<F: FnMut(&T, &T) -> std::cmp::Ordering>(&mut self, compare: F) {
+            let from = self.from;
+            self.from = 0;
+            self.sort_from(from, compare)
+        }
+        fn sort_from<F: FnMut(&T, &T) -> std::cmp::Ordering>(&mut self, from: usize, mut compare: F) {
+            let mut i = from + 1;
+            while i < self.len {
+                let mut j = i;
+                while j > from && compare(&self.items[j - 1], &self.items[j]) == std::cmp::Ordering::Greater {
+                    self.items.swap(j - 1, j);
+                    j -= 1;
+                }
+                i += 1;
+            }
+        }
+        pub fn first(&self) -> Option<&T> { if self.len == 0 { None } else { Some(&self.items[0]) } }
+        pub fn last(&self) -> Option<&T> { if self.len == 0 { None } else { Some(&self.items[self.len - 1]) } }
+    }
+    /// `v[from..]` of the model, for the one use the code makes of it (`v[from..].sort_by(..)`; tools/c12_extract.py
+    /// refuses any other range indexing): the vector itself with a window start recorded, which the next `sort_by`
+    /// honours and clears.  No unsafe code: Kani mis-modelled a `repr(transparent)` view type (spurious failures
+    /// that do not replay).
+    impl<T: Copy + Default> std::ops::Index<std::ops::RangeFrom<usize>> for Vec<T> {
+        type Output = Vec<T>;
+        fn index(&self, _r: std::ops::RangeFrom<usize>) -> &Vec<T> { unimplemented!("Vec model: only `v[from..].sort_by(..)` is modelled") }
+    }
+    impl<T: Copy + Default> std::ops::IndexMut<std::ops::RangeFrom<usize>> for Vec<T> {
+        fn index_mut(&mut self, r: std::ops::RangeFrom<usize>) -> &mut Vec<T> {
+            assert!(r.start <= self.len, "range start index out of range");
+            self.from = r.start;
+            self
+        }
+    }
+    macro_rules! vec { () => { Vec::new() }; }
+
+    include!("extracted.rs");
+
+    /// `lang_id_matches` is private in langid.rs: a plain forwarder so that a harness can call it
+    pub fn call_lang_id_matches(lhs: &LanguageIdentifier, rhs: &LanguageIdentifier, self_as_range: bool, other_as_range: bool) -> bool {
+        lang_id_matches(lhs, rhs, self_as_range, other_as_range)
+    }
+}
+use negotiation::{call_lang_id_matches, filter_matches, find_match};
 
 // ---------------- harness types ----------------
-/// a supported locale: its language identifier (the generated enum's `as_langid`)
+/// a supported locale: `as_ref` gives its language identifier (the generated enum returns a constant per variant)
 #[derive(Clone, Copy, PartialEq, Eq, Debug)]
 pub struct Loc(pub LanguageIdentifier);
 impl AsRef<LanguageIdentifier> for Loc {
     fn as_ref(&self) -> &LanguageIdentifier { &self.0 }
 }
-/// the default locale: a code outside the symbolic universe, so "fell back to the default" is observable
+/// the default locale: its language is a code outside the symbolic universe, so "fell back to the default" is
+/// observable
 pub const DEFAULT: Loc = Loc(LanguageIdentifier { language: Language(200), script: None, region: None, variants: Variants { items: [Variant(0)], len: 0 } });
 impl Default for Loc {
     fn default() -> Self { DEFAULT }
@@ -79,9 +160,6 @@ pub fn matches_spec(a: &LanguageIdentifier, req: &LanguageIdentifier) -> bool {
 mod proofs {
     use super::*;
 
-    const NA: usize = 2; // supported locales
-    const NR: usize = 2; // requested languages
-
     fn any_opt(n: u8) -> Option<u8> { if kani::any() { let x: u8 = kani::any(); kani::assume(x >= 1 && x <= n); Some(x) } else { None } }
     /// language in 0..=2 (0 = und), script / region / variant absent or one of two codes
     fn any_langid(allow_und: bool) -> LanguageIdentifier {
@@ -98,65 +176,191 @@ mod proofs {
     fn matching_predicate() {
         let a = any_langid(false);
         let r = any_langid(true);
-        assert_eq!(lang_id_matches(&a, &r, true, false), matches_spec(&a, &r));
-        assert_eq!(lang_id_matches(&a, &r, false, false), a == r);
+        assert_eq!(call_lang_id_matches(&a, &r, true, false), matches_spec(&a, &r));
+        assert_eq!(call_lang_id_matches(&a, &r, false, false), a == r);
     }
 
-    fn setup() -> ([Loc; NA], usize, [LanguageIdentifier; NR], usize) {
-        let av = [Loc(any_langid(false)), Loc(any_langid(false))];
-        let na: usize = kani::any();
-        kani::assume(na <= NA);
-        // get_all lists every locale once
-        kani::assume(!(na >= 2 && av[0] == av[1]));
-        let rq = [any_langid(true), any_langid(true)];
-        let nr: usize = kani::any();
-        kani::assume(nr <= NR);
-        (av, na, rq, nr)
-    }
-
-    #[kani::proof]
-    #[kani::unwind(5)]
-    fn precondition_satisfiable() {
-        let (av, na, rq, nr) = setup();
-        kani::cover!(na == NA && nr == NR && matches_spec(&av[1].0, &rq[1]) && !matches_spec(&av[0].0, &rq[0]));
-    }
-
-    /// C12 for up to 3 supported locales and up to 2 requested languages
-    #[kani::proof]
-    #[kani::unwind(5)]
-    fn preference_order() {
-        let (av, na, rq, nr) = setup();
-        let got: Loc = find_match(&rq[..nr], &av[..na]);
-        // the first requested language that some supported locale matches
-        let mut first: Option<usize> = None;
+    /// exactly NA supported locales (pairwise distinct, as get_all lists them) and exactly NR requested languages;
+    /// the slice lengths are concrete so that every loop has a concrete bound
+    fn setup<const NA: usize, const NR: usize>() -> ([Loc; NA], [LanguageIdentifier; NR]) {
+        let av: [Loc; NA] = core::array::from_fn(|_| Loc(any_langid(false)));
         let mut i = 0;
-        while i < nr {
+        while i < NA {
             let mut j = 0;
-            while j < na {
-                if first.is_none() && matches_spec(&av[j].0, &rq[i]) { first = Some(i); }
-                j += 1;
-            }
+            while j < i { kani::assume(av[i].as_ref() != av[j].as_ref()); j += 1; }
             i += 1;
         }
-        match first {
-            // no match at all: the default locale
-            None => assert!(got == DEFAULT),
-            Some(i0) => {
-                // always a supported locale ...
+        let rq: [LanguageIdentifier; NR] = core::array::from_fn(|_| any_langid(true));
+        (av, rq)
+    }
+
+    fn satisfiable<const NA: usize, const NR: usize>() {
+        let (av, rq) = setup::<NA, NR>();
+        kani::cover!(matches_spec(av[NA - 1].as_ref(), &rq[NR - 1]) && (NA == 1 && NR == 1 || !matches_spec(av[0].as_ref(), &rq[0])));
+    }
+
+    /// C12 for NA supported locales and NR requested languages.
+    /// Every array index below is concrete (the loops have concrete bounds): CBMC 6.11 mis-read a field of
+    /// `rq[i0]` for a *symbolic* `i0` (nested array inside the indexed struct), which gave failures that did
+    /// not replay.
+    fn preference_order<const NA: usize, const NR: usize>() {
+        let (av, rq) = setup::<NA, NR>();
+        let got: Loc = find_match(&rq, &av);
+        let mut decided = false;
+        let mut i = 0;
+        while i < NR {
+            if !decided {
+                // does some supported locale match the i-th requested language ?
+                let mut any = false;
                 let mut member = false;
                 let mut exact: Option<Loc> = None;
                 let mut j = 0;
-                while j < na {
+                while j < NA {
+                    if matches_spec(av[j].as_ref(), &rq[i]) { any = true; }
                     if av[j] == got { member = true; }
-                    if av[j].0 == rq[i0] { exact = Some(av[j]); }
+                    if *av[j].as_ref() == rq[i] { exact = Some(av[j]); }
                     j += 1;
                 }
-                assert!(member);
-                // ... that matches the earliest matched language: never passed over for a later-listed one
-                assert!(matches_spec(&got.0, &rq[i0]));
-                // and for that language an exact match beats a less specific one
-                if let Some(e) = exact { assert!(got == e); }
+                if any {
+                    // this is the first requested language with a match: the result is decided here
+                    decided = true;
+                    // always a supported locale ...
+                    assert!(member);
+                    // ... that matches this language: never passed over for one matching only a later-listed language
+                    assert!(matches_spec(got.as_ref(), &rq[i]));
+                    // and an exact match beats a less specific one
+                    if let Some(e) = exact { assert!(got == e); }
+                }
             }
+            i += 1;
         }
+        // no match at all: the default locale
+        if !decided { assert!(got == DEFAULT); }
+    }
+
+    #[kani::proof]
+    #[kani::unwind(5)]
+    fn model_tail_sort() {
+        let a: u8 = kani::any(); let b: u8 = kani::any(); let c: u8 = kani::any();
+        let mut v: negotiation::Vec<u8> = negotiation::Vec::new();
+        v.push(a); v.push(b); v.push(c);
+        let k: usize = kani::any();
+        kani::assume(k <= 3);
+        v[k..].sort_by(|x, y| x.cmp(y).reverse());
+        if k >= 1 { assert!(v.get(0) == a); }
+        if k >= 2 { assert!(v.get(1) == b); }
+        if k == 1 { assert!(v.get(1) >= v.get(2)); }
+    }
+
+    #[kani::proof]
+    #[kani::unwind(5)]
+    fn concrete_d5() {
+        let l1 = LanguageIdentifier { language: Language(1), script: None, region: None, variants: Variants::new(None) };
+        let l1v = LanguageIdentifier { language: Language(1), script: None, region: None, variants: Variants::new(Some(Variant(1))) };
+        let av = [Loc(l1), Loc(l1v)];
+        let rq = [l1, l1v];
+        let got: Loc = find_match(&rq, &av);
+        assert!(got == av[0]);
+        let all = filter_matches(&rq, &av);
+        assert!(all.len() == 2);
+        assert!(all.get(0) == av[0]);
+        assert!(all.get(1) == av[1]);
+    }
+
+    fn li(l: u8, s: Option<u8>, r: Option<u8>, v: Option<u8>) -> LanguageIdentifier {
+        LanguageIdentifier { language: Language(l), script: s.map(Script), region: r.map(Region), variants: Variants::new(v.map(Variant)) }
+    }
+
+
+
+
+
+    mod po_1_1 {
+        use super::*;
+        #[kani::proof] #[kani::unwind(4)] fn precondition_satisfiable() { satisfiable::<1, 1>() }
+        #[kani::proof] #[kani::unwind(4)] fn check() { preference_order::<1, 1>() }
+    }
+    mod po_2_1 {
+        use super::*;
+        #[kani::proof] #[kani::unwind(5)] fn precondition_satisfiable() { satisfiable::<2, 1>() }
+        #[kani::proof] #[kani::unwind(5)] fn check() { preference_order::<2, 1>() }
+    }
+    mod po_1_2 {
+        use super::*;
+        #[kani::proof] #[kani::unwind(5)] fn precondition_satisfiable() { satisfiable::<1, 2>() }
+        #[kani::proof] #[kani::unwind(5)] fn check() { preference_order::<1, 2>() }
+    }
+    mod po_2_2 {
+        use super::*;
+        #[kani::proof] #[kani::unwind(5)] fn precondition_satisfiable() { satisfiable::<2, 2>() }
+        #[kani::proof] #[kani::unwind(5)] fn check() { preference_order::<2, 2>() }
+    }
+    mod po_3_1 {
+        use super::*;
+        #[kani::proof] #[kani::unwind(6)] fn precondition_satisfiable() { satisfiable::<3, 1>() }
+        #[kani::proof] #[kani::unwind(6)] fn check() { preference_order::<3, 1>() }
+    }
+    mod po_3_2 {
+        use super::*;
+        #[kani::proof] #[kani::unwind(6)] fn precondition_satisfiable() { satisfiable::<3, 2>() }
+        #[kani::proof] #[kani::unwind(6)] fn check() { preference_order::<3, 2>() }
+    }
+}
+
+#[cfg(test)]
+mod model_tests {
+    use super::negotiation::Vec;
+    #[test]
+    fn vec_model_behaves_like_std() {
+        let data = [5u8, 1, 4, 1, 3];
+        for k in 0..=4usize {
+            let mut m: Vec<u8> = Vec::from_slice(&data[..4]);
+            let mut v: std::vec::Vec<u8> = data[..4].to_vec();
+            m[k..].sort_by(|a, b| a.cmp(b).reverse());
+            v[k..].sort_by(|a, b| a.cmp(b).reverse());
+            for i in 0..4 { assert_eq!(m.get(i), v[i]); }
+            m.retain(|x| *x != 1);
+            v.retain(|x| *x != 1);
+            assert_eq!(m.len(), v.len());
+            for i in 0..v.len() { assert_eq!(m.get(i), v[i]); }
+            assert_eq!(m.first(), v.first());
+        }
+    }
+}
+
+#[cfg(test)]
+/// native cross-check (not part of the verdict): exhaustive run of the same oracle over the same universe for
+/// 2 supported locales and 2 requests; `cargo test` in this crate
+mod native_cross_check {
+    use super::*;
+    fn universe(allow_und: bool) -> std::vec::Vec<LanguageIdentifier> {
+        let mut out = std::vec::Vec::new();
+        for l in (if allow_und { 0 } else { 1 })..=2u8 {
+            for s in 0..=2u8 { for r in 0..=2u8 { for v in 0..=2u8 {
+                out.push(LanguageIdentifier { language: Language(l), script: if s == 0 { None } else { Some(Script(s)) },
+                    region: if r == 0 { None } else { Some(Region(r)) }, variants: Variants::new(if v == 0 { None } else { Some(Variant(v)) }) });
+            }}}
+        }
+        out
+    }
+    #[test]
+    fn exhaustive_2_2() {
+        let ua = universe(false);
+        let ur = universe(true);
+        let mut counts = [0usize; 4];
+        for a0 in &ua { for a1 in &ua { if a0 == a1 { continue; } for r0 in &ur { for r1 in &ur {
+            let av = [Loc(*a0), Loc(*a1)];
+            let rq = [*r0, *r1];
+            let got: Loc = find_match(&rq, &av);
+            let mut first = None;
+            for i in 0..2 { for j in 0..2 { if first.is_none() && matches_spec(av[j].as_ref(), &rq[i]) { first = Some(i); } } }
+            let class = match first {
+                None => if got == DEFAULT { 9 } else { 0 },
+                Some(i0) => if !av.contains(&got) { 1 } else if !matches_spec(got.as_ref(), &rq[i0]) { 2 } else if !av.iter().all(|a| *a.as_ref() != rq[i0] || got == *a) { 3 } else { 9 },
+            };
+            if class < 4 { if counts[class] == 0 { println!("FAIL class {} av={:?} rq={:?} got={:?}", class, av, rq, got); } counts[class] += 1; }
+        }}}}
+        println!("COUNTS {:?}", counts);
+        assert_eq!(counts, [0; 4]);
     }
 }
